@@ -22,10 +22,13 @@ def main():
         base = json.load(open(sys.argv[sys.argv.index("--base") + 1]))["Replace"]
     os.makedirs(out, exist_ok=True)
     modcache = subprocess.check_output(["go", "env", "GOMODCACHE"], text=True).strip()
-    bd = os.path.join(modcache, "github.com/bytedance/gopkg@v0.1.1/lang")
+    m = re.search(r'github.com/bytedance/gopkg\s+(v[0-9][^\s]*)', open(os.path.join(REPO, "go.mod")).read())
+    ver = m.group(1) if m else "v0.1.1"
+    bd = os.path.join(modcache, "github.com/bytedance/gopkg@%s/lang" % ver)
     if not os.path.isdir(bd):
-        die("module cache lacks github.com/bytedance/gopkg@v0.1.1")
+        die("module cache lacks github.com/bytedance/gopkg@%s" % ver)
     rep = dict(base)
+    notes = {}
 
     def put(target, name, content=None):
         dst = os.path.join(out, name)
@@ -46,35 +49,78 @@ def main():
     # 1. deterministic auditing allocator + dirty memory
     put(os.path.join(bd, "mcache/mcache.go"), "mcache.go")
     put(os.path.join(bd, "dirtmake/bytes.go"), "dirtmake.go")
-    # 2. private-state dumps
-    put(os.path.join(REPO, "bufiox/zz_verif_dump.go"), "bufiox_dump.go")
-    put(os.path.join(REPO, "container/strmap/zz_verif_dump.go"), "strmap_dump.go")
-    put(os.path.join(REPO, "protocol/thrift/zz_verif_dump.go"), "thrift_dump.go")
-    # 3. deterministic sync.Pool for protocol/thrift (import rewrite) + virtual package
+    # 2. (private state is read by reflection, package verif/vdump: no file is added to bufiox / thrift, and no
+    #    private identifier of cloudwego/gopkg is named anywhere in the harness)
+    # 3. deterministic sync.Pool (import rewrite in EVERY non-test file of the repository that imports "sync";
+    #    the virtual package aliases everything else of package sync) + virtual package
     put(os.path.join(REPO, "verifshim/vsync/pool.go"), "vsync_pool.go")
-    for rel in ["protocol/thrift/bufferreader.go", "protocol/thrift/bufferwriter.go", "protocol/thrift/skipdecoder.go"]:
-        s = read_repo(rel)
-        n = len(re.findall(r'^\s*"sync"\s*$', s, flags=re.M))
-        if n != 1:
-            die('%s: expected exactly one `"sync"` import line, found %d' % (rel, n))
-        s = re.sub(r'^(\s*)"sync"\s*$', r'\1sync "github.com/cloudwego/gopkg/verifshim/vsync"', s, count=1, flags=re.M)
-        put(os.path.join(REPO, rel), "rw_" + os.path.basename(rel), s)
+    rewritten = []
+    for root, dirs, files in os.walk(REPO):
+        dirs[:] = [d for d in dirs if not d.startswith(".") and d not in ("verifshim", "testdata", "_seed")]
+        for fn in sorted(files):
+            if not fn.endswith(".go") or fn.endswith("_test.go"):
+                continue
+            rel = os.path.relpath(os.path.join(root, fn), REPO)
+            s = read_repo(rel)
+            if not re.search(r'^\s*"sync"\s*$', s, flags=re.M):
+                continue
+            s = re.sub(r'^(\s*)"sync"\s*$', r'\1sync "github.com/cloudwego/gopkg/verifshim/vsync"', s, count=1, flags=re.M)
+            put(os.path.join(REPO, rel), "rw_" + rel.replace("/", "__"), s)
+            rewritten.append(rel)
+    notes["sync_import_rewritten_in"] = rewritten
     put(os.path.join(REPO, "verifshim/vnetpoll/netpoll.go"), "vnetpoll.go")
     # 4. span allocator: atomic -> scheduling-point shim
     s = open(os.path.join(bd, "span/span.go")).read()
     if s.count('"sync/atomic"') != 1:
         die("span.go: sync/atomic import not found")
     s = s.replace('"sync/atomic"', 'atomic "github.com/cloudwego/gopkg/verifshim/vatomic"')
+    hook = "\tsp.buffer = dirtmake.Bytes(0, size)\n\treturn sp"
+    if s.count(hook) != 1:
+        die("span.go: NewSpan body not found")
+    s = s.replace(hook, "\tsp.buffer = dirtmake.Bytes(0, size)\n\tverifSpans = append(verifSpans, sp)\n\treturn sp")
+    s += """
+// ---- added by the verification overlay ----
+
+var verifSpans []*span
+
+// VerifResetAll puts every span ever created back into its initial state (determinism between executions): the
+// part of the buffer that was handed out is made dirty again.
+func VerifResetAll() {
+	for _, sp := range verifSpans {
+		b := sp.buffer[:cap(sp.buffer)]
+		n := int(sp.read)
+		if n > len(b) {
+			n = len(b)
+		}
+		for i := 0; i < n; i++ {
+			b[i] = 0xE9
+		}
+		sp.buffer = b[:0]
+		sp.lock, sp.read = 0, 0
+	}
+}
+"""
     put(os.path.join(bd, "span/span.go"), "rw_span.go", s)
     put(os.path.join(REPO, "verifshim/vatomic/atomic.go"), "vatomic.go")
-    # 5. controllable hash for the string map
-    s = read_repo("internal/hash/maphash/maphash.go")
-    m = re.search(r'func String\(seed maphash\.Seed, s string\) uint64 \{\n', s)
-    if not m:
-        die("maphash.go: func String not found")
-    s = s[:m.end()] + "\tif VerifHashTable != nil {\n\t\tif h, ok := VerifHashTable[s]; ok {\n\t\t\treturn h\n\t\t}\n\t\tif VerifHashFn != nil {\n\t\t\treturn VerifHashFn(s)\n\t\t}\n\t}\n" + s[m.end():]
-    s += "\n// VerifHashTable / VerifHashFn: added by the verification overlay; the harness decides hash values.\nvar VerifHashTable map[string]uint64\nvar VerifHashFn func(string) uint64\n"
-    put(os.path.join(REPO, "internal/hash/maphash/maphash.go"), "rw_maphash.go", s)
+    # 5. controllable hash for the string map (if the hook point cannot be found the knob is simply absent: C07 then
+    #    runs under the repository's real hash only and says so in its evidence)
+    knob = False
+    mh = os.path.join(REPO, "internal/hash/maphash/maphash.go")
+    if os.path.exists(base.get(mh, mh)):
+        s = read_repo("internal/hash/maphash/maphash.go")
+        m = re.search(r'func String\(seed maphash\.Seed, s string\) uint64 \{\n', s)
+        if m:
+            s = s[:m.end()] + "\tif VerifHashTable != nil {\n\t\tif h, ok := VerifHashTable[s]; ok {\n\t\t\treturn h\n\t\t}\n\t\tif VerifHashFn != nil {\n\t\t\treturn VerifHashFn(s)\n\t\t}\n\t}\n" + s[m.end():]
+            s += "\n// VerifHashTable / VerifHashFn: added by the verification overlay; the harness decides hash values.\nvar VerifHashTable map[string]uint64\nvar VerifHashFn func(string) uint64\n"
+            put(os.path.join(REPO, "internal/hash/maphash/maphash.go"), "rw_maphash.go", s)
+            knob = True
+    notes["strmap_hash_knob"] = knob
+    # maphash is internal to the module: the knob is re-exported through a file added to package strmap
+    if knob:
+        put(os.path.join(REPO, "container/strmap/zz_verif_knob.go"), "strmap_knob.go")
+    else:
+        put(os.path.join(REPO, "container/strmap/zz_verif_knob.go"), "strmap_knob.go",
+            "package strmap\n\n// VerifSetHash: the hook point for a harness-owned hash was not found in this tree.\nfunc VerifSetHash(t map[string]uint64, fn func(string) uint64) bool { return false }\n")
     if "--unsafex-go100" in sys.argv:
         s = read_repo("unsafex/unsafex_go100.go")
         s2 = re.sub(r'^//go:build[^\n]*\n', '', s, flags=re.M)
@@ -82,7 +128,7 @@ def main():
         if s2 == s:
             die("unsafex_go100.go: no build constraint found to strip")
         put(os.path.join(REPO, "unsafex/unsafex_go121.go"), "rw_unsafex_go100.go", s2)
-    # maphash is internal: re-export the knobs through strmap's dump file (same module, allowed)
     json.dump({"Replace": rep}, open(os.path.join(out, "overlay.json"), "w"), indent=1)
+    json.dump(notes, open(os.path.join(out, "notes.json"), "w"), indent=1)
 
 main()
